@@ -31,8 +31,26 @@ def tree_hash(paths):
             h.update(p.encode()); h.update(open(p, 'rb').read())
     return h.hexdigest()[:16]
 
+def gen_headers():
+    """cmake's configure step writes cmn.h / ctx.h next to their .h.in (git-ignored). When the tree lacks them (fresh restore,
+    scratch copy) the same substitution (@VAR@ -> empty: no FUSE backend here) is done into a cache directory that is searched LAST."""
+    gen = os.path.join(CACHE, 'gen')
+    for root, dirs, files in os.walk(LIB):
+        for f in files:
+            if not f.endswith('.h.in'): continue
+            src = os.path.join(root, f); real = src[:-3]
+            dst = os.path.join(gen, os.path.relpath(real, LIB))
+            if os.path.exists(real):
+                if os.path.exists(dst): os.unlink(dst)
+                continue
+            text = re.sub(r'@\w+@', '', open(src).read())
+            os.makedirs(os.path.dirname(dst), exist_ok=True)
+            if not os.path.exists(dst) or open(dst).read() != text: open(dst, 'w').write(text)
+    return gen
+
 def inc_flags():
-    return ['-I' + os.path.join(LIB, i) for i in INCS]
+    gen = gen_headers()
+    return ['-I' + os.path.join(LIB, i) for i in INCS] + ['-I' + os.path.join(gen, i) for i in ('core', 'core/public')]
 
 # ---------------------------------------------------------------- T1: constants
 def regen_consts():
@@ -123,17 +141,20 @@ def build_model(name):
     return exe, ''
 
 # ---------------------------------------------------------------- C drivers
-def build_driver(name, srcs, extra_flags=(), libs=()):
+TSAN_CFLAGS = ['-std=gnu11', '-D_GNU_SOURCE', '-D' + GUARD, '-g', '-O1', '-fno-omit-frame-pointer', '-fsanitize=thread', '-w']
+
+def build_driver(name, srcs, extra_flags=(), libs=(), cflags=None):
     """compile harness/<name>.c with the given /repo sources (ASan+UBSan); cache keyed by content"""
     os.makedirs(CACHE, exist_ok=True)
     drv = os.path.join(VERIF, 'harness', name + '.c')
     harness_dir = os.path.join(VERIF, 'harness')
-    key = tree_hash([LIB, harness_dir]) + hashlib.sha256(' '.join(list(extra_flags) + list(srcs)).encode()).hexdigest()[:6]
+    cflags = CFLAGS if cflags is None else cflags
+    key = tree_hash([LIB, harness_dir]) + hashlib.sha256(' '.join(list(cflags) + list(extra_flags) + list(srcs)).encode()).hexdigest()[:6]
     exe = os.path.join(CACHE, '%s_%s' % (name, key))
     if not os.path.exists(exe):
         for f in os.listdir(CACHE):       # drop stale builds of this driver
             if f.startswith(name + '_'): os.unlink(os.path.join(CACHE, f))
-        cmd = ['gcc'] + CFLAGS + list(extra_flags) + inc_flags() + ['-I' + harness_dir, drv] + \
+        cmd = ['gcc'] + list(cflags) + list(extra_flags) + inc_flags() + ['-I' + harness_dir, drv] + \
               [os.path.join(LIB, s) for s in srcs] + ['-o', exe] + list(libs)
         r = sh(cmd)
         if r.returncode != 0:
